@@ -5,8 +5,9 @@ Model of `pedantic/decorators/fn_deco_validate/fn_deco_validate.py` (`validate`:
 (`parameters/abstract_parameter.py`), plus Python's own binding of a call `f(*pos, **kw)` to a signature.
 
 Taken from `PedVerif.Gen.Validate` (regenerated from the source on every run): the `is_required` rule, the order of the
-three loops and which sit under `if not ignore_input`, the dispatch programs of `wrapper` and `async_wrapper`, the `if` of
-the KWARGS_WITHOUT_NONE filter, and the decision code of `_split_by_signature`.
+three loops and which sit under `if not ignore_input`, the `wants_args` rule and the test of the `zip` branch, the dispatch
+programs of `wrapper` and `async_wrapper`, the `if` of the KWARGS_WITHOUT_NONE filter, and the decision code of
+`_split_by_signature`.
 
 Conversion (`convert_value`) and validators are *abstract* functions `PV → Except Rej PV` stored in the parameter, so
 every theorem holds for any validator, user-defined ones included.
@@ -17,7 +18,9 @@ open PedVerif.Gen.Validate
 abbrev Name := Nat
 /-- the name `self` -/
 def selfName : Name := 0
-/-- the name `args` (only as the key under which `bind_partial` files the surplus positionals of a `*args` function) -/
+/-- the name `args`: the key under which `bind_partial` files the surplus positionals of a function whose VAR_POSITIONAL
+    parameter is spelled `*args` — and the only spelling `_wrapper_content` recognises (`k == 'args' and wants_args`).
+    An ordinary parameter may carry this name too. -/
 def argsName : Name := 1
 
 /-- runtime values: `none` is Python's `None`; every other object is identified by a number.
@@ -121,11 +124,21 @@ structure SParam where
   name : Name
   dflt : Option PV              -- `none` = `inspect.Parameter.empty`
 
-/-- the decorated function's signature: `def f(<pos…>, [*args,] [<kwOnly…>])` (no positional-only, no `**kwargs`) -/
+/-- the decorated function's signature: `def f(<pos…>, [*<varName>,] [<kwOnly…>])` (no positional-only, no `**kwargs`,
+    no annotations; no default value whose repr contains the text `*args`) -/
 structure Sig where
   pos : List SParam             -- POSITIONAL_OR_KEYWORD, incl. `self` for methods
-  varArgs : Bool                -- a VAR_POSITIONAL parameter spelled `*args`
+  varArgs : Bool                -- there is a VAR_POSITIONAL parameter
   kwOnly : List SParam
+  varName : Name := argsName    -- its name: `*args`, `*rest`, … (meaningful when `varArgs`); does not begin with `args` unless it is `args`
+  /-- the identity of the tuple object that `bind_partial` builds from the surplus positionals -/
+  tupleOf : List PV → PV := fun _ => .obj 0
+
+/-- `wants_args = '*args' in str(signature)`, a test on the *text* of the signature: on the signatures modelled here the
+    text `*args` occurs iff the VAR_POSITIONAL parameter is spelled `args` (rule generated from the source) -/
+def Sig.wantsArgs (s : Sig) : Bool :=
+  wantsArgsRule (s.varArgs && s.varName == argsName)
+    ((s.varArgs && s.varName == argsName) || (s.pos ++ s.kwOnly).any (·.name == argsName))
 
 def Sig.named (s : Sig) : List SParam := s.pos ++ s.kwOnly
 def Sig.posNames (s : Sig) : List Name := s.pos.map (·.name)
@@ -142,14 +155,19 @@ def loopKw (ps : List VParam) (strict : Bool) : List (Name × PV) → Assoc → 
         loopKw ps strict rest (res.set k v') (used ++ [p.name])
     | Option.none => if strict then .error .tooMany else loopKw ps strict rest (res.set k v) used
 
-/-- `signature.bind_partial(*args).arguments`: named entries in signature order, then the tuple filed under `args` -/
+/-- `signature.bind_partial(*args).arguments` as the second loop consumes it: `named` are the entries that go through the
+    branches `elif k in parameter_dict` / `else` (signature order); `extras` are the surplus positionals when their key is
+    `args` and `wants_args` holds (the `zip` branch).  The tuple of a VAR_POSITIONAL parameter spelled otherwise (`*rest`)
+    is an ordinary entry `(rest, <the tuple object>)`: `k == 'args' and wants_args` is false for it. -/
 structure Bound where
   named : List (Name × PV)
-  extras : List PV              -- non-empty iff the key `args` is present
+  extras : List PV              -- non-empty iff the key `args` is present and `wants_args`
 
 def bindPartial (sig : Sig) (args : List PV) : Except VExc Bound :=
   if args.length ≤ sig.pos.length then .ok ⟨sig.posNames.zip args, []⟩
-  else if sig.varArgs then .ok ⟨sig.posNames.zip args, args.drop sig.pos.length⟩
+  else if sig.varArgs then
+    if zipBranchTest (sig.varName == argsName) sig.wantsArgs then .ok ⟨sig.posNames.zip args, args.drop sig.pos.length⟩
+    else .ok ⟨sig.posNames.zip args ++ [(sig.varName, sig.tupleOf (args.drop sig.pos.length))], []⟩
   else .error .validate          -- `except TypeError as ex: raise ValidateException(str(ex))`
 
 /-- second loop, the branches `elif k in parameter_dict` / `else` -/
@@ -264,7 +282,7 @@ def bindCall (sig : Sig) (pos : List PV) (kw : Assoc) : Except VExc Binding :=
 
 /-- `inspect.signature(func).parameters.items()` as (name, kind is positional) -/
 def sigItems (sig : Sig) : List (Name × Bool) :=
-  sig.pos.map (fun s => (s.name, true)) ++ (if sig.varArgs then [(argsName, false)] else [])
+  sig.pos.map (fun s => (s.name, true)) ++ (if sig.varArgs then [(sig.varName, false)] else [])
     ++ sig.kwOnly.map (fun s => (s.name, false))
 
 /-- the prefix loop of `_split_by_signature` (test generated) -/
